@@ -687,8 +687,23 @@ int main(int argc, char** argv) {
             long vsz = 0, rss = 0;
             if (sscanf(benum::slurp("/proc/self/statm").c_str(), "%ld %ld", &vsz, &rss) == 2 && (rss > 32768 || vsz > 1048576)) { fflush(stdout); _exit(77); }
         };
-        auto on_death = [&](uint64_t rank, const std::string& what, const std::string& err) {
+        bool lost_cases = false;
+        std::function<void(uint64_t, const std::string&, const std::string&)> on_death;
+        on_death = [&](uint64_t rank, const std::string& what, const std::string& err) {
             if (what == "exit:77") { counters["note_children_recycled_for_memory"]++; return; }
+            if (what == "signal:9") {
+                // nothing in the library sends SIGKILL and the watchdog's own kill is reported as "hang": the environment
+                // (the kernel's OOM killer on a shared machine) took the child. Not a verdict: run the case once more, alone.
+                counters["note_children_killed_by_environment"]++;
+                static bool retrying = false;
+                if (retrying) { lost_cases = true; return; }
+                retrying = true;
+                benum::Args one = a; one.nshards = 1; one.shard = 0;
+                benum::Isolation iso1; iso1.case_timeout_s = 30.0;
+                benum::run_isolated(one, rank, rank + 1, body, on_death, iso1);
+                retrying = false;
+                return;
+            }
             const Case& cs = cases[rank];
             const std::string spec = cs.c->name() + "|" + cs.p.name();
             counters["evaluations"]++;
@@ -701,7 +716,7 @@ int main(int argc, char** argv) {
         const auto t_start = std::chrono::steady_clock::now();
         const bool complete = benum::run_isolated(a, 0, cases.size(), body, on_death, iso);
         if (a.shard == 0) benum::note("group " + std::to_string(gi) + ": " + std::to_string(cases.size()) + " cases over all shards, " + std::to_string(static_cast<int>(std::chrono::duration<double>(std::chrono::steady_clock::now() - t_start).count())) + " s in shard 0");
-        benum::bound(gr.name, complete && dry_ok);
+        benum::bound(gr.name, complete && dry_ok && !lost_cases);
     }
     counters.emit();
     return 0;
